@@ -1,14 +1,7 @@
-(* Static-map round trip (writer then reader).
-   PARTIAL: the for-all statement (every table satisfying a sortedness/prefix-freeness condition and
-   every assignment of well-formed, type-appropriate entries whose "[]" groups are filled from their
-   first row) is NOT proved here: it needs a lock-step simulation of the writer's and the reader's
-   stacks over the table that was not finished. What is proved: (a) the writer never faults and never
-   raises internal_error on the real tables for the computed instances below, (b) the round trip for
-   explicit instances over each of the four real tables and a synthetic nested table (finite:
-   computed by vm_compute, the instances are in the statements), (c) the empty map round trip for
-   EVERY table. The for-all claim is covered dynamically by the W cases of the correspondence run
-   (oracle class static-map-roundtrip). The base round trips of the values themselves (enc_dec_c,
-   enc_skip) are proved in ProofsRT.v / ProofsSkip.v for all trees. *)
+(* Static-map round trip, computed instances and the empty map. The for-all theorem
+   (static_map_roundtrip: every table with table_rt_ok, every entry assignment on rows without "[]")
+   is in ProofsSMRound.v. What is still PARTIAL: filled list rows ("x[]…"), for which only the
+   explicit instances below are proved (finite, computed by vm_compute). *)
 From Coq Require Import List NArith ZArith Bool Lia.
 From LTV Require Import Common.Bytes.
 From LTV.C07 Require Import ParamsGen Model StaticMap ProofsSM.
